@@ -62,6 +62,10 @@ TrAddFault == /\ Is("addfault")
                  \/ Ev.r = "ok" /\ Add(Ev.mb, Ev.id, Ev.meta, Ev.size) /\ SnapOK(boxes')
               /\ Mark
 
+(* a delivery that evicts (through the cap) a message whose content file has disappeared: a delivery like any other *)
+TrAddGone == /\ Is("addgone") /\ Ev.r = "ok"
+             /\ Add(Ev.mb, Ev.id, Ev.meta, Ev.size) /\ SnapOK(boxes') /\ Mark
+
 (* the mailbox is listed while no file can be opened: an error, or the right listing - never a wrong one *)
 TrListFault == /\ Is("listfault")
                /\ (Ev.r # "ok") \/ (Ev.msgs = ListRes(Ev.mb))
@@ -186,7 +190,7 @@ TrSites == /\ Is("sites")
 (* C10: every following operation runs in a newly started process *)
 TrRestart == /\ Is("restart") /\ Restart /\ SnapOK(boxes) /\ Mark
 
-TraceNext == \/ TrListFault \/ TrAddFault \/ TrDelivered \/ TrSites \/ TrRestart \/ TrCrash \/ TrEvents \/ TrReset \/ TrAdd \/ TrSeen \/ TrRemove \/ TrPurge \/ TrScan
+TraceNext == \/ TrAddGone \/ TrListFault \/ TrAddFault \/ TrDelivered \/ TrSites \/ TrRestart \/ TrCrash \/ TrEvents \/ TrReset \/ TrAdd \/ TrSeen \/ TrRemove \/ TrPurge \/ TrScan
              \/ TrGet \/ TrLatest \/ TrList \/ TrVisit \/ TrReopen \/ TrProbe
 
 TraceSpec == TraceInit /\ [][TraceNext]_tvars
